@@ -245,7 +245,7 @@ def locOf : Except DeErr Val → Option (Option Bytes)
   | .ok (.struct [.one (.str b)]) => some (some b)
   | _ => none
 
-/-- F-xml-5a (`xml-illformed-accepted:document-element`, FIXED by d00ca17): the empty document (the witness
+/-- F-xml-5a (`xml-illformed-accepted:document-element`, FIXED by 7f2ce46): the empty document (the witness
 `w-empty-location`) is refused by the hand-written `GetBucketLocationOutput` decoder with `UnexpectedEof` (before:
 accepted as "no constraint"; the decoder looped over the top-level elements, of which there were none) … -/
 theorem location_empty_document_refused :
@@ -285,7 +285,7 @@ theorem location_constraint_accepted :
 def docCommentDashes : Bytes :=
   [60, 75, 101, 121, 62] ++ [60, 33, 45, 45, 32, 97, 32, 45, 45, 32, 98, 32, 45, 45, 62] ++ [107, 60, 47, 75, 101, 121, 62]
 
-/-- F-xml-5h (`xml-illformed-accepted:comment`, FIXED by ce2599c): a comment that holds `--` is a reader error: the
+/-- F-xml-5h (`xml-illformed-accepted:comment`, FIXED by 5bbd9e0): a comment that holds `--` is a reader error: the
 document is refused with `InvalidXml` (before: accepted as `k`, the comment was skipped unseen) … -/
 theorem comment_dashes_refused :
     errOf (decodeDoc X0 (.named key) .str (deEvents (tokenize docCommentDashes))) = some .invalidXml := by decide
@@ -312,7 +312,7 @@ theorem comment_single_dash_accepted :
 /-- `<Key>a]]>b</Key>` (the witness `w-illformed-cdata-end`, inside `<Tag>` there) -/
 def docCdataEnd : Bytes := [60, 75, 101, 121, 62, 97, 93, 93, 62, 98, 60, 47, 75, 101, 121, 62]
 
-/-- F-xml-5g (`xml-illformed-accepted:cdata-end`, FIXED by fc97754): character data that holds `]]>` is refused with
+/-- F-xml-5g (`xml-illformed-accepted:cdata-end`, FIXED by 5946f21): character data that holds `]]>` is refused with
 `InvalidContent` (before: accepted as `a]]>b`) … -/
 theorem cdata_end_refused :
     errOf (decodeDoc X0 (.named key) .str (deEvents (tokenize docCdataEnd))) = some .invalidContent := by decide
@@ -338,7 +338,7 @@ theorem cdata_end_in_sections_accepted :
        [60, 33, 91, 67, 68, 65, 84, 65, 91, 62, 98, 93, 93, 62] ++ [60, 47, 75, 101, 121, 62]))))
       = some [97, 93, 93, 62, 98] := by decide
 
-/-- F-xml-5i (`xml-illformed-accepted:pi-target`, FIXED by 66c0f09): a processing instruction without a target,
+/-- F-xml-5i (`xml-illformed-accepted:pi-target`, FIXED by 61061ab): a processing instruction without a target,
 `<Key><??>k</Key>` (the witness `w-illformed-pi-target`, inside `<Tag>` there), is refused with `InvalidContent`
 (before: accepted as `k`, the processing instruction was skipped unseen) … -/
 theorem pi_no_target_refused :
